@@ -11,7 +11,8 @@ LEVEL = 'exploration'
 RULE = ('random molecules x partitions in which a random subset of the cut bonds is replaced by sharing one end atom (the atom '
         'is cloned into the neighbouring fragment, clone and original carry a uniquely labelled ! pair): several shared '
         'atoms per fragment, atoms shared 3+ ways, shared aromatic ring atoms, fragments consisting only of a shared atom, '
-        'shared atoms with ordinary descriptors, random base-graph spelling. Oracle: overlapping description == disjoint '
+        'shared atoms with ordinary descriptors, random base-graph spelling, two such molecules in one base graph joined by '
+        'order-0 edges only (string and caller-made graph, edge list shuffled). Oracle: overlapping description == disjoint '
         'description == generator ground truth (isomorphism on element, charge, H count, orders); atom count = sum of '
         'fragment atoms - shared pairs + hydrogens; every atom, traced through its mapping entries to the generator atom it '
         'stems from, belongs to exactly the coarse nodes the generator put it in. distinct = (feature set, #heavy, '
@@ -52,8 +53,53 @@ def cases(seed, tier, shard, nshards):
             c = MC.random_shared_case(rng, rng.choice([3, 6, 10, 16]), p_share=rng.choice([0.3, 0.6, 1.0]))
         if c is None:
             continue
+        if rng.random() < 0.18:
+            c = two_copies(rng, c)
         made += 1
         yield c
+
+
+def _two_copies_sub(rng, sub, zero_pairs, ctor):
+    """the description of ONE molecule -> the description of two such molecules in one base graph, the copies joined by
+    order-0 edges only ('.' in a string); in a caller-made graph the order-0 edges stand at random places of the edge list,
+    preferably between a node of one copy and a neighbour-in-the-molecule of the other (their descriptors are compatible)"""
+    out = dict(sub)
+    nodes = sub['base_graph']['nodes']
+    edges = sub['base_graph']['edges']
+    off = max(n for n, _ in nodes) + 1
+    n2 = [[n, nm] for n, nm in nodes] + [[n + off, nm] for n, nm in nodes]
+    e2 = [[a, b, o] for a, b, o in edges] + [[a + off, b + off, o] for a, b, o in edges]
+    for a, b in zero_pairs:
+        e2.append([a, b + off, 0])
+    rng.shuffle(e2)
+    if rng.random() < 0.5:
+        rng.shuffle(n2)
+    inner = sub['base_string'][1:-1]
+    out.update(base_string='{' + inner + '.' + inner + '}', ctor=ctor, base_graph={'nodes': n2, 'edges': e2})
+    return out
+
+
+def two_copies(rng, case):
+    sh = case['shared']
+    edges = [(a, b) for a, b, _ in sh['base_graph']['edges']]
+    keys = [n for n, _ in sh['base_graph']['nodes']]
+    zero = []
+    for _ in range(rng.randint(1, 3)):
+        if edges and rng.random() < 0.7:
+            a, b = rng.choice(edges)
+            if rng.random() < 0.5:
+                a, b = b, a
+        else:
+            a, b = rng.choice(keys), rng.choice(keys)
+        if (a, b) not in zero:
+            zero.append((a, b))
+    ctor = rng.choice(['from_graph', 'from_graph', 'string'])
+    out = dict(case)
+    out['shared'] = _two_copies_sub(rng, sh, zero, ctor)
+    out['disjoint'] = _two_copies_sub(rng, case['disjoint'], zero, ctor)
+    out['copies'] = 2
+    out['features'] = sorted(set(case['features']) | {'two_molecules_in_one_base_graph', 'two_molecules_' + ctor})
+    return out
 
 
 def run_hierarchy(case):
@@ -80,6 +126,10 @@ def run(case):
     contracts.clear()
     viol = []
     truth = MC.truth_from_json(case['truth'])
+    copies = case.get('copies', 1)
+    if copies == 2:
+        import networkx as nx
+        truth = nx.disjoint_union(truth, truth)
     sh = dict(case['shared'])
     txt = MC.case_text(sh)
     kw = {} if case.get('legacy', True) else {'legacy': False}
@@ -93,9 +143,9 @@ def run(case):
             viol.append(V('c10.shared_vs_truth', f'{txt} -> {M.describe(res["heavy"])} {res["problems"]}; the molecule {case["smiles"]!r} is {M.describe(truth)}'))
         aa = res['aa']
         nh = sum(d['nh'] for _, d in truth.nodes(data=True))
-        expect_n = case['natoms_frag'] - case['nshared'] + nh
+        expect_n = copies * (case['natoms_frag'] - case['nshared']) + nh
         if len(aa) != expect_n:
-            viol.append(V('c10.atom_count', f'{txt}: {len(aa)} atoms, expected {case["natoms_frag"]} fragment atoms - {case["nshared"]} shared pairs + {nh} hydrogens = {expect_n}'))
+            viol.append(V('c10.atom_count', f'{txt}: {len(aa)} atoms, expected {copies} x ({case["natoms_frag"]} fragment atoms - {case["nshared"]} shared pairs) + {nh} hydrogens = {expect_n}'))
         # membership through mapping
         for n, d in aa.nodes(data=True):
             if d.get('element') == 'H' and not d.get('mapping'):
@@ -111,6 +161,11 @@ def run(case):
             if len(origins) != 1:
                 viol.append(V('c10.merged_different_atoms', f'{txt}: fine atom {n} stems from generator atoms {sorted(origins, key=str)} (mapping {d.get("mapping")})'))
                 break
+            if copies == 2:
+                off_ = len(case['shared']['base_graph']['nodes']) // 2
+                if len({int(k) >= off_ for k in (d.get('fragid') or [])}) > 1:
+                    viol.append(V('c10.merged_across_molecules', f'{txt}: fine atom {n} belongs to coarse nodes {d.get("fragid")} of two molecules that are joined by order-0 edges only'))
+                    break
             o = next(iter(origins))
             want = set(case['membership'].get(str(o), []))
             cg = res['cg']
